@@ -1399,6 +1399,20 @@ class StateEngine(object):
             return
 
         """
+        The definition may have been stored without validation, so check that
+        it at least has the shape needed to find its start state before the
+        execution is recorded and announced as RUNNING, otherwise the
+        resulting exception would leave an execution that is RUNNING for ever.
+        """
+        if not (isinstance(ASL, dict) and isinstance(ASL.get("States"), dict)
+                and isinstance(ASL.get("StartAt"), str)):
+            self.log_and_drop(
+                "State Machine {} does not have a valid definition",
+                state_machine_arn, id
+            )
+            return
+
+        """
         Record if the State Machine for this execution is "STANDARD" or "EXPRESS".
         If "EXPRESS" certain features, like recording execution descriptions and
         history, will be disabled as per the Stepfunction API.
